@@ -286,7 +286,10 @@ def load(path, modname, extra=None):
               exp=math.exp, fmod=math.fmod, sqrt=math.sqrt)
     if extra:
         ns.update(extra)
-    exec(compile(tree, path, 'exec'), ns)
+    try:
+        exec(compile(tree, path, 'exec'), ns)
+    except SyntaxError as e:
+        raise EmuUnsupported("transliteration of %s does not compile: %s" % (path, e))
     return mod, py
 
 
